@@ -7,7 +7,9 @@ from ..prog import AnalysisBroken
 
 CLAUSE = ("TZ clause: on every path from a successful change_tz()/localtime_tz() to every return of every "
           "library function, exactly one restore_tz() runs; change_tz saves getenv(\"TZ\") before setenv; "
-          "restore_tz restores from that saved copy; setenv/unsetenv/putenv/tzset are called nowhere else in libzvbi.")
+          "restore_tz restores from that saved copy; every path of change_tz/restore_tz that changed the variable calls tzset(); "
+          "setenv/unsetenv/putenv/tzset are called nowhere else in libzvbi. Leap-day clause, structural part only: is_leap_year() "
+          "receives tm_year + 1900.")
 NOT_DECIDED = ("year inference, leap-day acceptance, validity-window lengths, overflow checks (numeric); "
                "libc setenv/tzset semantics and restore_tz's own ENOMEM path are trusted/documented exceptions.")
 
@@ -147,6 +149,13 @@ def run(ctx, run):
     run.floor("RF-PAIR/TZ functions reaching change_tz", n_roots, 4)
     run.floor("RF-PAIR/TZ acquire sites", n_acq, 4)
 
+    # ---- time zone state follows the environment: tzset() after every change ----
+    _check_tzset(ctx, run, ch)
+    _check_tzset(ctx, run, rs)
+
+    # ---- RF-UNIT: struct tm years are offsets from 1900 -----------------------------
+    _check_tm_year(ctx, run)
+
     # positive example: the engine must see a leak in a known-leaky shape
     _selftest(ctx, run)
 
@@ -265,6 +274,75 @@ def _check_restore_tz(ctx, run, f):
     else:
         run.violation("RF-PAIR/TZ", key, "restore_tz has a path with tz != NULL that returns without restoring TZ",
                       "%s:%d" % (f.file, f.line))
+
+
+def _check_tzset(ctx, run, f):
+    """Every path on which setenv/unsetenv changed TZ reaches tzset() before
+    the function returns (otherwise timezone/daylight/tzname/localtime keep
+    the other zone although getenv ("TZ") looks right)."""
+    class Spec:
+        memo = {}
+
+        def call(self, eng, ff, eid, e, S, K):
+            n = e.get("callee")
+            if n == "setenv":
+                return [("dirty", 0), (S, -1)]
+            if n in ("unsetenv", "putenv"):
+                return [("dirty", 0)]
+            if n == "tzset":
+                return [("synced", None)]
+            return [(S, None)]
+
+        def store(self, *a):
+            return None
+    eng = typestate.Engine(ctx, Spec(), f, ["untouched"]).run()
+    bad = [(rv, ret) for rv, S, ret in eng.outcomes() if S == "dirty"]
+    key = "RF-PAIR/TZ:%s:tzset-after-change" % f.name
+    if bad:
+        for rv, ret in bad:
+            line = f.exprs[ret]["line"] if ret is not None and ret >= 0 else f.endline
+            run.violation("RF-PAIR/TZ", key, "%s changes the TZ environment variable and returns (line %d) without tzset(): the "
+                          "C library's time zone state (timezone, daylight, tzname, localtime) keeps the previous zone"
+                          % (f.name, line), "%s:%d" % (f.file, line), witness={"function": f.name, "exit_line": line})
+    else:
+        run.holds("RF-PAIR/TZ", key, "every path of %s that changed TZ calls tzset() before returning" % f.name,
+                  "%s:%d" % (f.file, f.line))
+
+
+def _check_tm_year(ctx, run):
+    """Calendar-year consumers (is_leap_year) receive tm_year + 1900."""
+    P = ctx.prog
+    n = 0
+    for f in P.funcs:
+        if f.unit != "src/pdc.c":
+            continue
+        for bid, i in flow.all_events(f):
+            e = f.exprs[i]
+            if e["k"] != "call" or e.get("callee") != "is_leap_year":
+                continue
+            n += 1
+            run.touch(f)
+            arg = e["c"][0]
+            uses = [x for x in ex.walk(f, arg) if f.exprs[x]["k"] == "mem" and f.exprs[x]["member"] == "tm_year"]
+            key = "RF-UNIT:%s:is_leap_year-arg" % f.name
+            if not uses:
+                run.holds("RF-UNIT", key, "is_leap_year() argument does not come from struct tm", ex.loc(f, i), nontrivial=False)
+                continue
+            ok = False
+            for x in ex.walk(f, arg):
+                xe = f.exprs[x]
+                if xe["k"] == "bin" and xe["op"] == "+" and 1900 in (ex.const(f, xe["c"][0]), ex.const(f, xe["c"][1])):
+                    other = xe["c"][0] if ex.const(f, xe["c"][1]) == 1900 else xe["c"][1]
+                    oe = f.exprs[ex.skip(f, other)]
+                    if oe["k"] == "mem" and oe["member"] == "tm_year":
+                        ok = True
+            if ok:
+                run.holds("RF-UNIT", key, "is_leap_year (tm_year + 1900): struct tm counts years from 1900", ex.loc(f, i))
+            else:
+                run.violation("RF-UNIT", key, "is_leap_year() receives `%s`: struct tm's tm_year is an offset from 1900, so the "
+                              "400-year rule is applied to the wrong year (29 February of 2000/2400 rejected, of 2300 accepted)"
+                              % ex.pretty(f, arg), ex.loc(f, i), witness={"argument": ex.pretty(f, arg)})
+    run.floor("is_leap_year call sites", n, 1)
 
 
 def _selftest(ctx, run):
